@@ -38,6 +38,7 @@ wp.set_module_options({"enable_backward": False, "default_grid_stride": False})
 def _qderiv_actuator_passive_vel(
   # Model:
   opt_timestep: wp.array[float],
+  opt_disableflags: int,
   actuator_dyntype: wp.array[int],
   actuator_gaintype: wp.array[int],
   actuator_biastype: wp.array[int],
@@ -49,6 +50,8 @@ def _qderiv_actuator_passive_vel(
   actuator_actlimited: wp.array[bool],
   actuator_actrange: wp.array2d[wp.vec2],
   actuator_actearly: wp.array[bool],
+  actuator_ctrllimited: wp.array[bool],
+  actuator_ctrlrange: wp.array2d[wp.vec2],
   actuator_forcelimited: wp.array[bool],
   actuator_forcerange: wp.array2d[wp.vec2],
   # Data in:
@@ -161,7 +164,12 @@ def _qderiv_actuator_passive_vel(
       vel += gain * act
   else:
     if gain != 0.0:
-      vel += gain * ctrl_in[worldid, actid]
+      # the force uses the clamped control (see forward._actuator_force)
+      ctrl = ctrl_in[worldid, actid]
+      if actuator_ctrllimited[actid] and not (opt_disableflags & DisableBit.CLAMPCTRL):
+        ctrlrange = actuator_ctrlrange[worldid % actuator_ctrlrange.shape[0], actid]
+        ctrl = wp.clamp(ctrl, ctrlrange[0], ctrlrange[1])
+      vel += gain * ctrl
 
   vel_out[worldid, actid] = vel
 
@@ -1135,6 +1143,7 @@ def deriv_smooth_vel(m: Model, d: Data, out: wp.array2d[float]):
         dim=(d.nworld, m.nu),
         inputs=[
           m.opt.timestep,
+          m.opt.disableflags,
           m.actuator_dyntype,
           m.actuator_gaintype,
           m.actuator_biastype,
@@ -1146,6 +1155,8 @@ def deriv_smooth_vel(m: Model, d: Data, out: wp.array2d[float]):
           m.actuator_actlimited,
           m.actuator_actrange,
           m.actuator_actearly,
+          m.actuator_ctrllimited,
+          m.actuator_ctrlrange,
           m.actuator_forcelimited,
           m.actuator_forcerange,
           d.act,
